@@ -237,6 +237,16 @@ def run_play_many(scenario, d, factory, res):
     procs = engine.processes
     res["_procs"] = procs
     mon.procs = procs
+    # a worker scripted to be killed while it starts up IS killed before the first request is made,
+    # however slowly it starts (otherwise a loaded machine turns the script into a different one:
+    # the request is served by the others, and the sleeping worker blocks stop())
+    t0 = time.time()
+    while time.time() - t0 < 170:
+        mon.scan()
+        todo = [int(f.split(":")[1]) for f in scenario["faults"] if f.startswith("killinit:")]
+        if all(j in mon.killed or (j < len(procs) and procs[j].exitcode is not None) for j in todo):
+            break
+        time.sleep(0.05)
     seen_tags = set()
     prev_return = None
     t_call = t_engine
@@ -271,7 +281,9 @@ def run_play_many(scenario, d, factory, res):
         th = threading.Thread(target=call, daemon=True)
         th.start()
         obs = {"N": n, "request": r}
-        blocked = mon.watch(th, t_call, T)
+        # the bound is about noticing a failure, not about playing fast: a large request gets time
+        # to be played (50 ms per game on top of T; a busy machine plays thousands of games slowly)
+        blocked = mon.watch(th, t_call, T + 0.05 * n)
         markers = mon.scan()
         ts = mon.settled(markers) or t_call
         obs["fault"] = mon.last_fault()
@@ -351,7 +363,7 @@ def run_play_many_games(scenario, d, factory, res):
     th = threading.Thread(target=call, daemon=True)
     th.start()
     obs = {"N": n, "request": 1}
-    blocked = mon.watch(th, t_call, T)
+    blocked = mon.watch(th, t_call, T + 0.05 * n)
     markers = mon.scan()
     ts = mon.settled(markers) or t_call
     obs["fault"] = mon.last_fault()
